@@ -449,6 +449,7 @@ Definition add_cluster (s : store) (name node_num cfg : N) (choices : list (N * 
   else if amem name (st_clusters s) then (s, Fail E_AlreadyExisted)
   else if negb (N.eqb (node_num mod 4) 0) then (s, Fail E_InvalidNodeNum)
   else if N.eqb (node_num / 2) 0 then (s, Fail E_InvalidNodeNum)
+  else if N.ltb SLOT_NUM (node_num / 2) then (s, Fail E_InvalidNodeNum)   (* every master needs at least one slot *)
   else
     match gen_chunks s (node_num / 2) 0 choices with
     | Fail e => (s, Fail e)
@@ -477,6 +478,7 @@ Definition auto_add_nodes (s : store) (name num : N) (choices : list (N * N)) : 
     if cluster_is_migrating cl then (s, Fail E_MigrationRunning)
     else if negb (N.eqb (num mod 4) 0) then (s, Fail E_InvalidNodeNum)
     else if N.eqb (num / 2) 0 then (s, Fail E_InvalidNodeNum)
+    else if N.ltb SLOT_NUM (2 * N.of_nat (length (cl_chunks cl)) + num / 2) then (s, Fail E_InvalidNodeNum)
     else
       match gen_chunks s (num / 2) (2 * N.of_nat (length (cl_chunks cl))) choices with
       | Fail e => (s, Fail e)
